@@ -348,14 +348,40 @@ fn decode_everything(run: &Run, bytes: &[u8], how: &str) {
             );
         }
     };
-    dec!("record<Chunk>", try_deserialize_record::<Chunk>(&r).map(|c| chunk_ok(&c, "record<Chunk>")));
-    dec!("record<Scratchpad>", try_deserialize_record::<Scratchpad>(&r).map(|s| format!("{s:?}")));
-    dec!("record<Vec<Transaction>>", try_deserialize_record::<Vec<Transaction>>(&r).map(|s| s.len()));
-    dec!("record<SignedRegister>", try_deserialize_record::<SignedRegister>(&r).map(|s| s.ops().len()));
-    dec!("record<(Proof,Chunk)>", try_deserialize_record::<(ProofOfPayment, Chunk)>(&r).map(|(_, c)| chunk_ok(&c, "record<(Proof,Chunk)>")));
-    dec!("record<(Proof,Scratchpad)>", try_deserialize_record::<(ProofOfPayment, Scratchpad)>(&r).map(|_| ()));
-    dec!("record<(Proof,Transaction)>", try_deserialize_record::<(ProofOfPayment, Transaction)>(&r).map(|_| ()));
-    dec!("record<(Proof,SignedRegister)>", try_deserialize_record::<(ProofOfPayment, SignedRegister)>(&r).map(|_| ()));
+    // the tag occupies a fixed-size prefix: whatever decodes, decodes from the bytes behind the first RecordHeader::SIZE (2)
+    // bytes — never from where some longer or shorter spelling of a header happens to end
+    macro_rules! record {
+        ($name:expr, $t:ty, $post:expr) => {
+            match catch(|| try_deserialize_record::<$t>(&r)) {
+                Err(p) => run.violation("no-panic", $name, format!("{} panicked on {} ({} bytes): {p}", $name, how, bytes.len()), json!({"op":"decode","decoder":$name,"how":how,"bytes":hex::encode(&bytes[..bytes.len().min(4096)])})),
+                Ok(Err(_)) => {}
+                Ok(Ok(got)) => {
+                    let reference = if bytes.len() > 2 { rmp_serde::from_slice::<$t>(&bytes[2..]).ok() } else { None };
+                    if reference.as_ref() != Some(&got) {
+                        run.violation(
+                            "fixed-size-prefix",
+                            $name,
+                            format!("{} decoded {} ({} bytes) to a value that is not the decoding of the bytes behind the 2-byte prefix", $name, how, bytes.len()),
+                            json!({"op":"decode","decoder":$name,"how":how,"bytes":hex::encode(&bytes[..bytes.len().min(4096)])}),
+                        );
+                    }
+                    #[allow(clippy::redundant_closure_call)]
+                    match catch(|| ($post)(&got)) {
+                        Ok(()) => {}
+                        Err(p) => run.violation("no-panic", $name, format!("using the value {} decoded from {} panicked: {p}", $name, how), json!({"op":"decode","decoder":$name,"how":how,"bytes":hex::encode(&bytes[..bytes.len().min(4096)])})),
+                    }
+                }
+            }
+        };
+    }
+    record!("record<Chunk>", Chunk, |c: &Chunk| chunk_ok(c, "record<Chunk>"));
+    record!("record<Scratchpad>", Scratchpad, |s: &Scratchpad| drop(format!("{s:?}")));
+    record!("record<Vec<Transaction>>", Vec<Transaction>, |s: &Vec<Transaction>| drop(s.len()));
+    record!("record<SignedRegister>", SignedRegister, |s: &SignedRegister| drop(s.ops().len()));
+    record!("record<(Proof,Chunk)>", (ProofOfPayment, Chunk), |v: &(ProofOfPayment, Chunk)| chunk_ok(&v.1, "record<(Proof,Chunk)>"));
+    record!("record<(Proof,Scratchpad)>", (ProofOfPayment, Scratchpad), |_: &(ProofOfPayment, Scratchpad)| ());
+    record!("record<(Proof,Transaction)>", (ProofOfPayment, Transaction), |_: &(ProofOfPayment, Transaction)| ());
+    record!("record<(Proof,SignedRegister)>", (ProofOfPayment, SignedRegister), |_: &(ProofOfPayment, SignedRegister)| ());
     dec!("cbor<Request>", cbor_dec::<Request>(bytes).map(|m| format!("{m:?} {}", m.dst())));
     dec!("cbor<Response>", cbor_dec::<Response>(bytes).map(|m| format!("{m:?} {m}")));
 }
@@ -372,8 +398,8 @@ pub fn main(tier: Option<&str>) {
         "value pools per record kind (chunks of 9(14) boundary sizes, 21 scratchpads, 10 transactions and their vectors, 12 registers, \
          4 proofs and every (proof, value) pairing), every Request/Response variant over a 9-address pool with boundary field values; \
          each is encoded, decoded, compared, its prefix checked against the pinned tag table and its bytes against the committed \
-         golden file; then every byte string of length <=2 (all 65,792), every sequence <=3(4) over 24 marker bytes, every well-formed MessagePack body of 9 other shapes (explicit address next to the content, map, nesting) behind every kind's header, and every truncation \
-         and single-byte substitution of every encoding above is fed to all 11 decoders. Non-trivial: any decode input longer than the header.",
+         golden file; then every byte string of length <=2 (all 65,792), every sequence <=3(4) over 24 marker bytes, every well-formed MessagePack body of 9 other shapes (explicit address next to the content, map, nesting) behind every kind's header, every kept record encoding behind 10 other MessagePack spellings of its header, and every truncation \
+         and single-byte substitution of every encoding above is fed to all 11 decoders; whatever a record decoder returns must be the decoding of the bytes behind the 2-byte prefix. Non-trivial: any decode input longer than the header.",
     );
     run.assume("wire codecs are the ones the code uses: rmp-serde for records, cbor4ii (libp2p request-response cbor codec) for messages");
     run.assume("golden bytes were generated once from the pinned tree (VERIF_REGEN_GOLDEN=1) and are compared on every run");
@@ -560,6 +586,33 @@ pub fn main(tier: Option<&str>) {
                 let mut bytes = vec![0x91u8, *tag];
                 bytes.extend_from_slice(body);
                 decode_everything(&run, &bytes, &format!("other-shape:{tag_kind:?}:{sname}"));
+            }
+        }
+    }
+    // other spellings of a header (MessagePack encodes one integer / one array length in several ways) in front of the
+    // body of every real encoding kept above: none of them is the 2-byte prefix, so none may decode to the body's value
+    {
+        let spell = |k: u8| -> Vec<(&'static str, Vec<u8>)> {
+            vec![
+                ("uint8 kind", vec![0x91, 0xcc, k]),
+                ("int8 kind", vec![0x91, 0xd0, k]),
+                ("uint16 kind", vec![0x91, 0xcd, 0, k]),
+                ("int16 kind", vec![0x91, 0xd1, 0, k]),
+                ("uint32 kind", vec![0x91, 0xce, 0, 0, 0, k]),
+                ("uint64 kind", vec![0x91, 0xcf, 0, 0, 0, 0, 0, 0, 0, k]),
+                ("array16 header", vec![0xdc, 0, 1, k]),
+                ("array32 header", vec![0xdd, 0, 0, 0, 1, k]),
+                ("bare kind", vec![k]),
+                ("two-element header", vec![0x92, k, 0xc0]),
+            ]
+        };
+        for (name, e) in &encodings {
+            if e.len() < 3 || e[0] != 0x91 || e.len() > 4096 {
+                continue;
+            }
+            for (sname, h) in spell(e[1]) {
+                let bytes = [&h[..], &e[2..]].concat();
+                decode_everything(&run, &bytes, &format!("respelled-header:{sname}:{name}"));
             }
         }
     }
